@@ -1070,7 +1070,7 @@ def check_enum_multi(ctx, e, run, props, okey0, path, N, argsym, argbits, exhaus
 
 
 def partial_path(s):
-    return "%s::Partial%s" % (s["mod"], s["name"])
+    return "%s::Partial%s" % (s["mod"].replace("()", ""), s["name"])
 
 
 def check_builder(ctx, cr, s):
@@ -1407,7 +1407,7 @@ def check_const(ctx, cr, decl):
     for c in decl.get("consts", []):
         if c.get("skip"):
             continue
-        cf = cr["_const"].get("%s::%s" % (decl["mod"], c["name"]))
+        cf = cr["_const"].get("%s::%s" % (decl["mod"].replace("()", ""), c["name"]))
         okey = "%s|const_witness|%s" % (path, c["name"])
         if cf is None:
             ctx.ob({"C15"}, okey, None, "const witness not found in facts")
